@@ -7,7 +7,7 @@ from lockstep import run_impl, run_model, first_diff, shrink
 # property -> store/edge families whose correspondence it depends on
 STORE_FAMILIES = {
     "C01": ["pos", "buf", "bufedge"], "C02": ["pos", "buf", "bufedge"], "C04": ["pos", "buf", "bufedge"],
-    "C05": ["pos", "buf"], "C06": ["pos", "buf", "bufedge"], "C07": ["pos", "buf", "bufedge"],
+    "C05": ["pos", "buf", "prq"], "C06": ["pos", "buf", "bufedge"], "C07": ["pos", "buf", "bufedge"],
     "C11": ["bufedge", "buf"], "C18": ["pos", "bufedge"], "C19": ["pos", "buf"],
 }
 # judge property ids that decide each property at store level
